@@ -8,7 +8,7 @@
      smono st st'        st' is st with some locks removed                     (ProofsStore)
      covered pieces k    some piece contains k                                 (ProofsDel) *)
 From Verif Require Import Base.Lex RangeTask.Model RangeTask.ProofsOrd RangeTask.ProofsStore RangeTask.ProofsPart
-  RangeTask.ProofsInv RangeTask.ProofsScan RangeTask.ProofsGc RangeTask.ProofsOut RangeTask.ProofsDel RangeTask.ProofsTerm RangeTask.ProofsAsync RangeTask.ProofsVis RangeTask.ModelView RangeTask.ProofsView RangeTask.ModelLayout RangeTask.ProofsLayout RangeTask.ProofsProps.
+  RangeTask.ProofsInv RangeTask.ProofsScan RangeTask.ProofsGc RangeTask.ProofsOut RangeTask.ProofsDel RangeTask.ProofsTerm RangeTask.ProofsAsync RangeTask.ProofsVis RangeTask.ModelView RangeTask.ProofsView RangeTask.ModelLayout RangeTask.ProofsLayout RangeTask.ProofsProps RangeTask.ExData.
 Open Scope N_scope.
 
 (* ---- range task: for every range (unbounded end included) and every sequence of layouts, the sub-ranges
@@ -125,19 +125,6 @@ Theorem C14_outcomes_kept : forall view st0 sp limit s e fuel os st st' tr,
 Proof. exact gc_outcomes_kept_v. Qed.
 Print Assumptions C14_outcomes_kept.
 
-(* what "resolved by the outcome" means for one record: a committed primary => the lock's data is committed
-   with that commit ts; otherwise (rolled back / never committed / pessimistic lock) the writes are unchanged *)
-Theorem C14_resolved_record : forall st0 sp r l, k_lock r = Some l -> l_start l <= sp ->
-  let r' := resolve_by_outcome st0 sp r in
-  k_key r' = k_key r /\ k_lock r' = None /\
-  match committed_at st0 (l_primary l) (l_start l), l_kind l with
-  | Some c, LPut => k_writes r' = mkWrite (l_start l) c (Some (l_val l)) :: k_writes r
-  | Some c, LDel => k_writes r' = mkWrite (l_start l) c None :: k_writes r
-  | _, _ => k_writes r' = k_writes r
-  end.
-Proof. exact resolve_by_outcome_spec. Qed.
-Print Assumptions C14_resolved_record.
-
 (* ---- async commit: checkAllSecondaries / addKeys.  For EVERY list of per-region answers, i.e. whatever the
    order in which the CheckSecondaryLocks answers arrive: all locked => the max min_commit_ts; some lock missing and
    the answers consistent (one common commit ts V, V = 0 = rolled back, a real V not below any min_commit_ts) => V.
@@ -171,6 +158,23 @@ Theorem C14_primary_check : forall st0 sp locks st infos,
 Proof. exact C14_primary_check_proof. Qed.
 Print Assumptions C14_primary_check.
 
+(* what a pass does to a key that held a lock with start <= sp (end to end, not an unfolding): after a successful pass
+   over [s,e) with a faithful scan answer, the key of every such lock in the range is unlocked and its data writes are the
+   old ones plus -- iff the lock's transaction is committed (primary's commit record, or the async-commit decision) and the
+   lock is a put/delete -- exactly one write (start ts, that commit ts, the lock's value / a delete) *)
+Theorem C14_pass_effect : forall view st0 sp limit s e fuel os st' tr r0 l,
+  faithful_view view -> wf_store st0 -> (0 < limit)%nat -> Forall (oracle_ok st0 sp) os ->
+  gc_resolve_range_v view fuel sp limit s e os st0 = GcOk st' tr ->
+  In r0 st0 -> k_lock r0 = Some l -> l_start l <= sp -> in_range s e (k_key r0) = true ->
+  exists r', In r' st' /\ k_key r' = k_key r0 /\ k_lock r' = None /\
+    match committed_at st0 (l_primary l) (l_start l), l_kind l with
+    | Some c, LPut => k_writes r' = mkWrite (l_start l) c (Some (l_val l)) :: k_writes r0
+    | Some c, LDel => k_writes r' = mkWrite (l_start l) c None :: k_writes r0
+    | _, _ => k_writes r' = k_writes r0
+    end.
+Proof. exact pass_effect. Qed.
+Print Assumptions C14_pass_effect.
+
 (* snapshot reads (any ts, in particular ts >= sp) of keys without an old lock are unchanged by the pass *)
 Theorem C14_reads_kept : forall st0 sp k ts,
   (forall r, find_key st0 k = Some r -> old_lock sp r = false) ->
@@ -180,7 +184,7 @@ Print Assumptions C14_reads_kept.
 
 (* ... and so after ANY resolve-locks pass (any sub-ranges, any order, any interference): a snapshot read, at any ts
    and in particular at or above the safe point, of a key that held no lock with start <= sp returns what it
-   returned before; keys that held such a lock read as their transaction decided (C14_outcomes_kept + C14_resolved_record) *)
+   returned before; keys that held such a lock read as their transaction decided (C14_outcomes_kept + C14_pass_effect) *)
 Theorem C14_reads_kept_pass : forall st0 sp limit fuel tasks st' k ts,
   wf_store st0 -> (0 < limit)%nat -> Forall (fun t => Forall (oracle_ok st0 sp) (snd t)) tasks ->
   gc_pass fuel sp limit tasks st0 = Some st' ->
@@ -201,19 +205,6 @@ Theorem C14_gc_clamped : forall st0 expected granted limit fuel tasks st' sp',
 Proof. exact gc_full_clamped. Qed.
 Print Assumptions C14_gc_clamped.
 
-(* ---- rollback markers (partial: a derived layer, see Model.markers -- the abstract store keeps data writes only; the
-   marker CheckTxnStatus leaves on an absent primary and min_commit_ts pushing are not represented): every prewrite
-   lock with start <= sp whose transaction is not committed gets a marker that refuses a late prewrite of the same
-   (key, start ts); a marker exists only for such a lock, so no committed transaction is ever marked *)
-Theorem C14_rollback_markers_partial : forall st0 sp,
-  (forall r l, In r st0 -> k_lock r = Some l -> l_start l <= sp -> is_pess l = false ->
-     committed_at st0 (l_primary l) (l_start l) = None -> late_prewrite_accepted (markers st0 sp) (k_key r) (l_start l) = false) /\
-  (forall k t, In (k, t) (markers st0 sp) ->
-     exists r l, In r st0 /\ k_key r = k /\ k_lock r = Some l /\ l_start l = t /\ t <= sp /\ is_pess l = false /\
-                 committed_at st0 (l_primary l) t = None).
-Proof. exact C14_rollback_markers_partial_proof. Qed.
-Print Assumptions C14_rollback_markers_partial.
-
 (* ---- delete range: whatever the layouts, exactly the keys of [s,e) are removed (nothing for notify-only),
    and the requests sent tile the range *)
 Theorem C14_delete_range_exact : forall batch_end region_end fuel notify s e st st' pieces,
@@ -233,14 +224,6 @@ Theorem C14_delete_range_clipped : forall batch_end region_end fuel notify s e s
 Proof. exact delete_range_task_clipped. Qed.
 Print Assumptions C14_delete_range_clipped.
 
-(* ---- visibility: with a fresh cache, a read below the cached txn safe point is refused with aborted-by-GC
-   (no data returned), a read at or above it is served *)
-Theorem C14_visibility : forall (A : Type) cached ts (data : A),
-  (ts < cached -> check_visibility false cached ts = VisAbortedByGC /\ snapshot_read false cached ts data = (VisAbortedByGC, None)) /\
-  (cached <= ts -> check_visibility false cached ts = VisOk /\ snapshot_read false cached ts data = (VisOk, Some data)).
-Proof. exact C14_visibility_proof. Qed.
-Print Assumptions C14_visibility.
-
 (* the same over ANY schedule of safe-point updates interleaved with the sends and the post-response checks of one
    read (Get: one check after its response; BatchGet: one check after the last response; Scan / reverse Scan: one
    check after every batch): a response that arrives while the cached safe point is above the read ts refuses the
@@ -256,22 +239,13 @@ Proof. exact C14_visibility_schedule_proof. Qed.
 Print Assumptions C14_visibility_schedule.
 
 (* ---- non-vacuity *)
+Example ex_vis_single :   (* the one-check case: below the cached safe point refused, at it served *)
+  run_read 11 10 [VSend; VCheck] = (VisAbortedByGC, 0%nat) /\ run_read 10 10 [VSend; VCheck] = (VisOk, 1%nat).
+Proof. vm_compute. auto. Qed.
 Example ex_vis_schedule :   (* safe point learned while the 2nd scan batch is in flight: batch 1 served, batch 2 refused *)
   run_read 5 10 [VSend; VCheck; VSend; VUpdate 11; VCheck; VSend; VCheck] = (VisAbortedByGC, 1%nat) /\
   run_read 5 10 [VUpdate 11; VSend; VUpdate 10; VCheck] = (VisOk, 1%nat).
 Proof. vm_compute. auto. Qed.
-Definition ex_k (n : N) : list N := [n].
-Definition ex_store : store :=
-  [ mkRec (ex_k 1) (Some (mkLock 10 (ex_k 1) LPut [7])) [];                                   (* pending primary *)
-    mkRec (ex_k 2) (Some (mkLock 10 (ex_k 1) LDel [])) [mkWrite 3 4 (Some [1])];              (* its secondary *)
-    mkRec (ex_k 3) None [mkWrite 20 25 (Some [2])];                                           (* committed primary *)
-    mkRec (ex_k 4) (Some (mkLock 20 (ex_k 3) LPut [9])) [];                                   (* its leftover secondary *)
-    mkRec (ex_k 5) (Some (mkLock 30 (ex_k 5) LPess [])) [];                                   (* pessimistic *)
-    mkRec (ex_k 6) (Some (mkLock 90 (ex_k 6) LPut [5])) [] ].                                 (* above the safe point *)
-Definition ex_os : list iter_oracle :=   (* scan limit 1: limit hit, empty scans, a rescan after a region change *)
-  let o loc res := mkOracle loc [] [EStatus (ex_k 1) 10] res in
-  [ o ([], ex_k 4) (Some ([], ex_k 4)); o ([], ex_k 4) None; o (ex_k 4, []) (Some (ex_k 4, []));
-    o (ex_k 4, []) None; o (ex_k 4, ex_k 6) None; o (ex_k 6, []) None ].
 Example ex_wf : wf_store ex_store.
 Proof. apply wf_storeb_wf. vm_compute. reflexivity. Qed.
 Example ex_oracles_ok : Forall (oracle_ok ex_store 50) ex_os.
@@ -302,13 +276,6 @@ Example ex_gc_result :
 Proof. vm_compute. reflexivity. Qed.
 (* async commit: primary k1 + secondaries k2,k3 all locked => committed at the max min_commit_ts (14);
    primary k4 + secondaries k5 (locked), k6 (never prewritten) => rolled back *)
-Definition ex_async : store :=
-  [ mkRec (ex_k 1) (Some (mkLockA 10 (ex_k 1) LPut [1] true 11 [ex_k 2; ex_k 3])) [];
-    mkRec (ex_k 2) (Some (mkLockA 10 (ex_k 1) LPut [2] true 14 [])) [];
-    mkRec (ex_k 3) (Some (mkLockA 10 (ex_k 1) LDel [] true 12 [])) [];
-    mkRec (ex_k 4) (Some (mkLockA 20 (ex_k 4) LPut [4] true 21 [ex_k 5; ex_k 6])) [];
-    mkRec (ex_k 5) (Some (mkLockA 20 (ex_k 4) LPut [5] true 22 [])) [];
-    mkRec (ex_k 6) None [] ].
 Example ex_async_wf : wf_store ex_async.
 Proof. apply wf_storeb_wf. vm_compute. reflexivity. Qed.
 Example ex_async_gc : exists tr,
@@ -318,10 +285,6 @@ Example ex_async_gc : exists tr,
 Proof. eexists. vm_compute. reflexivity. Qed.
 (* mixed population after the owner's fallback to 2PC: async primary k1, async secondary k2, PLAIN prewrite lock on k3:
    all still locked => nonAsyncCommitLock fallback => everything rolled back (the primary by the forced status check) *)
-Definition ex_mixed : store :=
-  [ mkRec (ex_k 1) (Some (mkLockA 10 (ex_k 1) LPut [1] true 11 [ex_k 2; ex_k 3])) [];
-    mkRec (ex_k 2) (Some (mkLockA 10 (ex_k 1) LPut [2] true 14 [])) [];
-    mkRec (ex_k 3) (Some (mkLock 10 (ex_k 1) LPut [3])) [] ].
 Example ex_mixed_wf : wf_store ex_mixed.
 Proof. apply wf_storeb_wf. vm_compute. reflexivity. Qed.
 Example ex_mixed_gc : exists tr,
@@ -334,16 +297,14 @@ Example ex_async_orders :   (* the three delivery orders of "region A all locked
   check_all_secondaries 21 [RLocked [22]; RLocked [25]] = Some 25.
 Proof. vm_compute. auto. Qed.
 (* stale pessimistic primary pointer onto a secondary prewrite lock of the same (committed) transaction *)
-Definition ex_mismatch : store :=
-  [ mkRec (ex_k 1) (Some (mkLock 10 (ex_k 2) LPess [])) [];
-    mkRec (ex_k 2) (Some (mkLock 10 (ex_k 3) LPut [2])) [];
-    mkRec (ex_k 3) None [mkWrite 10 15 (Some [3])] ].
 Example ex_mismatch_fails : collect_v ex_mismatch [mkRec (ex_k 1) (Some (mkLock 10 (ex_k 2) LPess [])) []] [] = None /\ primaries_okb ex_mismatch = false.
 Proof. vm_compute. auto. Qed.
 Example ex_mismatch_unchecked :   (* without the check (mocktikv) the committed transaction's secondary on k2 is rolled back *)
   fst (collect ex_mismatch [mkRec (ex_k 1) (Some (mkLock 10 (ex_k 2) LPess [])) []] [])
   = [ mkRec (ex_k 1) None []; mkRec (ex_k 2) None []; mkRec (ex_k 3) None [mkWrite 10 15 (Some [3])] ].
 Proof. vm_compute. reflexivity. Qed.
+(* Model.markers is NOT the subject of a theorem (rollback records are C12's): it only predicts, for the check, which keys must
+   carry a rollback record after a pass *)
 Example ex_markers : markers ex_store 50 = [(ex_k 1, 10); (ex_k 2, 10)] /\ late_prewrite_accepted (markers ex_store 50) (ex_k 2) 10 = false
   /\ late_prewrite_accepted (markers ex_store 50) (ex_k 4) 20 = true.
 Proof. vm_compute. auto. Qed.
@@ -357,22 +318,12 @@ Proof. vm_compute. auto. Qed.
    The scan answer of the model is TYPED (the scanned record carries l_kind): if ScanLock does not report the lock type
    (ex_untyped: the pessimistic lock looks like a prewrite lock), the stale primary's "rolled back" status goes into
    txnInfos and the committed transaction's secondary is rolled back -- mocktikv's ScanLock before fix F41. *)
-Definition ex_stale : store :=
-  [ mkRec (ex_k 1) (Some (mkLock 10 (ex_k 9) LPess [])) [];
-    mkRec (ex_k 2) (Some (mkLock 10 (ex_k 3) LPut [2])) [];
-    mkRec (ex_k 3) None [mkWrite 10 15 (Some [3])] ].
 Example ex_stale_wf : wf_store ex_stale.
 Proof. apply wf_storeb_wf. vm_compute. reflexivity. Qed.
 Example ex_stale_gc : exists tr,
   gc_resolve_range 20 50 4 [] [] [mkOracle ([], []) [] [] (Some ([], []))] ex_stale
   = GcOk [ mkRec (ex_k 1) None []; mkRec (ex_k 2) None [mkWrite 10 15 (Some [2])]; mkRec (ex_k 3) None [mkWrite 10 15 (Some [3])] ] tr.
 Proof. eexists. vm_compute. reflexivity. Qed.
-Definition ex_untyped (r : krec) : krec :=
-  match k_lock r with
-  | Some l => mkRec (k_key r) (Some (mkLockA (l_start l) (l_primary l) (match l_kind l with LPess => LPut | k => k end) (l_val l)
-                                            (l_async l) (l_min_commit l) (l_secs l))) (k_writes r)
-  | None => r
-  end.
 Example ex_untyped_scan_breaks_outcome :
   batch_resolve ex_stale [] [] (map ex_untyped (scan ex_stale [] [] 50 4))
   = [ mkRec (ex_k 1) None []; mkRec (ex_k 2) None []; mkRec (ex_k 3) None [mkWrite 10 15 (Some [3])] ]
